@@ -44,7 +44,9 @@ pub enum Tier {
 pub fn configs(prop: &str, tier: Tier, seed: u64) -> Vec<Entry> {
     match prop {
         "C07" => crate::props::c07::configs(tier, seed),
+        "C08" => crate::props::c08::configs(tier, seed),
         "C09" => crate::props::c09::configs(tier, seed),
+        "C11" => crate::props::c11::configs(tier, seed),
         "C12" => crate::props::c12::configs(tier, seed),
         "C13" => crate::props::c13::configs(tier, seed),
         "C10" => crate::props::c10::configs(tier, seed),
